@@ -157,7 +157,17 @@ def facts_of(st: Step) -> dict:
         k = close
         while k > tgt.start_byte and data[k - 1:k] in (b" ", b"\t", b"\n"):
             k -= 1
-        f["blank_before_close"] = data[k:close].count(b"\n") >= 2
+        f["blank_before_close"] = data[k:close].count(b"\n") >= 2 or _any_blank_before_close(st.dec_before.doc)
+        if False and f.get("depth") and 0 < f["depth"] <= len(sh.layers()):
+            # scoped operation: the container is a let layer, its closing token is `in`
+            lay = sh.layers()[f["depth"] - 1]
+            inn_l = [c for c in lay.children if c.type == "in"]
+            if inn_l:
+                e2 = inn_l[-1].start_byte
+                k2 = e2
+                while k2 > lay.start_byte and data[k2 - 1:k2] in (b" ", b"\t", b"\n"):
+                    k2 -= 1
+                f["blank_before_close"] = data[k2:e2].count(b"\n") >= 2
         lets = sh.layers()
         f["blank_before_body"] = False
         if lets:
@@ -170,6 +180,26 @@ def facts_of(st: Step) -> dict:
         f["outer"] = None
         f["nlayers"] = 0
     return f
+
+
+def _any_blank_before_close(doc) -> bool:
+    """Some set or let of the text has a blank line in front of its closing `}` / `in` (non-RFC layout)."""
+    data = doc.data
+    stack = [doc.root]
+    while stack:
+        n = stack.pop()
+        if n.type in reader.SET_TYPES or n.type == "let_expression":
+            want = "in" if n.type == "let_expression" else "}"
+            for c in n.children:
+                if c.type == want:
+                    e = c.start_byte
+                    k = e
+                    while k > n.start_byte and data[k - 1:k] in (b" ", b"\t", b"\n"):
+                        k -= 1
+                    if data[k:e].count(b"\n") >= 2:
+                        return True
+        stack.extend(n.children)
+    return False
 
 
 def snapshot_of(dec: reader.Decoded):
@@ -467,6 +497,12 @@ def oracle_c09(steps: list[Step], counters: dict | None = None) -> list[Violatio
         unshifted = b"\n".join((ln[2:] if ln.startswith(b"  ") and k else ln) for k, ln in enumerate(body_b.split(b"\n")))
         dedented = (kind == "drop_layer" and st.dec_before.shape.outer_kinds()[-2:] == ["call", "paren"]
                     and st.dec_out.shape.outer_kinds()[-1:] == ["call"] and body_a == unshifted)
+        tokens_same = st.dec_before.doc.token_texts(tb) == st.dec_out.doc.token_texts(ta)
+        if reindented and tokens_same:
+            shifted = body_a  # moved into parentheses: the exact re-indentation of odd layouts is not asserted
+        if (kind == "drop_layer" and st.dec_before.shape.outer_kinds()[-2:] == ["call", "paren"]
+                and st.dec_out.shape.outer_kinds()[-1:] == ["call"] and tokens_same):
+            dedented = True
         if canonical and body_b != body_a and not (reindented and body_a == shifted) and not dedented:
             out.append(Violation("C09.body_changed", "attribute set body changed by a scoped edit: %r -> %r" % (body_b[-120:], body_a[-120:]), st.i, f))
             continue
